@@ -22,6 +22,10 @@ def _conds(f, n):
     return [(expr_str(f, cn), pol) for cn, pol in f.guard_conds(f.nblock[n["i"]]) if cn is not None]
 
 
+REGION_TESTS = ("prev->Is(CT_IGNORED)", "pc->GetPrev(ALL)->Is(CT_IGNORED)", "pc->GetNext(ALL)->Is(CT_IGNORED)",
+                "pc->GetPrev(ALL)->Is(CT_IGNORED) || pc->GetNext(ALL)->Is(CT_IGNORED)")
+
+
 def rule_cap_on_every_newline(ctx):
     db = ctx.db
     r = ctx.rule("cap-on-every-newline", "in do_blank_lines every path from the newline test to the next iteration passes the nl_max test, "
@@ -41,7 +45,8 @@ def rule_cap_on_every_newline(ctx):
         t = f.blocks[b].get("term")
         if t:
             c = t.get("lc", t.get("c"))
-            if c is not None and expr_str(f, c) == "prev->Is(CT_IGNORED)":
+            # the one documented exemption: a line break next to a line of a disabled region (either neighbour)
+            if c is not None and expr_str(f, c) in REGION_TESTS:
                 return i == 1
         return True
     # reach the loop header again without passing the nl_max test
@@ -69,7 +74,7 @@ def rule_cap_on_every_newline(ctx):
     r.check(len(caps) == 1 and ("options::nl_max() > 0", True) in _conds(f, caps[0]) and ("pc->GetNlCount() > options::nl_max()", True) in _conds(f, caps[0]),
             "do_blank_lines/cap-call", db.loc(f, caps[0] if caps else f.l0), "the nl_max test no longer calls blank_line_max(pc, options::nl_max) under count > nl_max")
     if caps:
-        extra = [c for c in _conds(f, caps[0]) if c[0] not in ("options::nl_max() > 0", "pc->GetNlCount() > options::nl_max()", "pc->IsNot(CT_NEWLINE)", "prev->Is(CT_IGNORED)",
+        extra = [c for c in _conds(f, caps[0]) if c[0] not in ("options::nl_max() > 0", "pc->GetNlCount() > options::nl_max()", "pc->IsNot(CT_NEWLINE)", "prev->Is(CT_IGNORED)") + REGION_TESTS + (
                                                               "pc->IsNotNullChunk()", "options::nl_max() > 0 && pc->GetNlCount() > options::nl_max()", "prev->IsNotNullChunk()")]
         r.check(not extra, "do_blank_lines/cap-unconditional", db.loc(f, caps[0]), "the cap additionally depends on %s" % extra)
     m = db.fn("blank_line_max", file=BL)
